@@ -26,6 +26,7 @@ META = {
 }
 
 LOSSES = ["refused", "reject", "eof", "reset", "pingtimeout"]
+CUT_LOSSES = ["eof-mid-frame", "eof-mid-message", "reset-mid-message"]
 HORIZON = 600.0
 
 
@@ -48,7 +49,16 @@ def build_plan(seq, final, rng):
                 s = f"c{i}m{m}"
                 script.append((0.2 + 0.2 * m, "frames", text(s)))
                 msgs_expected.append((i, s))
-            if k == "eof":
+            if k in CUT_LOSSES:
+                # the connection is lost in the middle of a frame / of a fragmented message: nothing of it may be
+                # delivered, and nothing of it may leak into the next connection
+                if k == "eof-mid-frame":
+                    script.append((0.6, "frames", b"\x81\x0ahalf"))
+                else:
+                    script.append((0.6, "frames", R.encode(R.TEXT, b"never-", fin=0)))
+                script.append((0.7, "reset" if k.startswith("reset") else "eof"))
+                plan.append(dict(outcome="ok", script=script, pong=0.05))
+            elif k == "eof":
                 script.append((0.7, "eof"))
                 plan.append(dict(outcome="ok", script=script, pong=0.05))
             elif k == "reset":
@@ -81,6 +91,14 @@ def run(res, tier, seed, shard, nshards):
                 for interval in (0.5, 1, 3):
                     for disp in (None, "rel"):
                         jobs.append(("seq", seq, final, interval, disp))
+    # losses that cut a frame or a fragmented message in half, in every position of short sequences
+    for n in range(1, 3 if quick else 4):
+        for seq in itertools.product(CUT_LOSSES + ["eof", "refused"], repeat=n):
+            if not any(k in CUT_LOSSES for k in seq):
+                continue
+            for final in ("server-close", "own-close"):
+                for disp in (None, "rel"):
+                    jobs.append(("seq", seq, final, 1, disp))
     # close() during the reconnect sleep, swept over the wake-up time
     for interval in (1, 3):
         for disp in (None, "rel"):
@@ -172,7 +190,7 @@ def seq_case(res, W, rng, seq, final, interval, disp, ji=0):
     dexc = getattr(run, "dispatch_exc", None)
     if dexc is not None:
         bad("exception-escaped-into-dispatcher", f"{type(dexc).__name__}: {dexc}", exc_type=type(dexc).__name__,
-            loss=next((k for k in seq if k in ("reset", "pingtimeout")), None))
+            loss=next((k for k in seq if k in ("reset", "pingtimeout", "reset-mid-message")), None))
         return
     attempts = run.attempts
     # --- number of attempts: exactly one per plan entry, none after the final ending
@@ -192,7 +210,7 @@ def seq_case(res, W, rng, seq, final, interval, disp, ji=0):
         t_attempt = attempts[k][0]
         if prev in ("refused", "reject"):
             loss = attempts[k - 1][0]
-        elif prev in ("eof", "reset"):
+        elif prev in ("eof", "reset") or prev in CUT_LOSSES:
             loss = servers[k - 1].lost_at
         else:
             loss = None  # ping timeout: detection time is C16's matter
@@ -243,6 +261,11 @@ def seq_case(res, W, rng, seq, final, interval, disp, ji=0):
     if run.open_transports():
         bad("transport-left-open", f"{len(run.open_transports())} transports open at the end")
     errs = [type(a[0]).__name__ for (t, n, a, ci) in names if n == "on_error"]
+    # C14's return-value clause, applied to runs with reconnections (built-in loop): True exactly when an error was reported
+    if disp is None and isinstance(run.ret, bool):
+        res.count("return_values_checked")
+        if run.ret != bool(errs):
+            bad("return-value", f"run_forever returned {run.ret!r}; errors reported to on_error during the run: {errs}", got=repr(run.ret), errors=len(errs))
     res.count("on_error_calls_recorded", len(errs))
     res.sample(case, cap=3)
 
